@@ -312,7 +312,12 @@ type gSpec struct {
 	DeprPool  bool              `json:"depr_pool"`
 }
 
-var gPortLib = []v1.ServicePort{{Protocol: v1.ProtocolTCP, Port: 80}, {Protocol: v1.ProtocolTCP, Port: 443}, {Protocol: v1.ProtocolUDP, Port: 53}}
+// the same port number also occurs on a second protocol (ports are (protocol, port) pairs)
+var gPortLib = []v1.ServicePort{{Protocol: v1.ProtocolTCP, Port: 80}, {Protocol: v1.ProtocolTCP, Port: 443}, {Protocol: v1.ProtocolUDP, Port: 53},
+	{Protocol: v1.ProtocolTCP, Port: 53}, {Protocol: v1.ProtocolUDP, Port: 80}}
+
+// loadBalancerClass the reconciler is started with in this history ("" = default); every generated Service carries it
+var gLBClass string
 
 func gGenSpec(r *rand.Rand, pools []gPool, held []string) gSpec {
 	sp := gSpec{LB: r.Intn(10) != 0, Labels: gLabelLib[r.Intn(len(gLabelLib))], ClusterOK: r.Intn(20) != 0}
@@ -330,7 +335,7 @@ func gGenSpec(r *rand.Rand, pools []gPool, held []string) gSpec {
 		sp.Pol = []string{"prefer", "require"}[r.Intn(2)]
 	}
 	sp.First6 = sp.Fam == "ipv6" || (sp.Fam == "dual" && r.Intn(3) == 0)
-	np := 1 + r.Intn(4)/3
+	np := 1 + r.Intn(5)/2 // 1, 2 or 3 ports
 	perm := r.Perm(len(gPortLib))
 	sp.Ports = append(sp.Ports, perm[:np]...)
 	sort.Ints(sp.Ports)
@@ -418,6 +423,10 @@ func gApplySpec(name string, sp gSpec, old *v1.Service) *v1.Service {
 	}
 	for _, i := range sp.Ports {
 		s.Spec.Ports = append(s.Spec.Ports, gPortLib[i])
+	}
+	if gLBClass != "" {
+		c := gLBClass
+		s.Spec.LoadBalancerClass = &c
 	}
 	if sp.Sharing != "" {
 		if sp.DeprShare {
@@ -584,7 +593,8 @@ func (w *hWorld) newController() {
 			w.order = append(w.order, name)
 			return res
 		},
-		Reload: w.reloadCh,
+		Reload:            w.reloadCh,
+		LoadBalancerClass: gLBClass,
 	}
 }
 
@@ -867,6 +877,12 @@ func hRunHistory(t *testing.T, out *vOut, r *rand.Rand, id int) {
 		},
 	})
 	w.shuffle = true
+	// one history in five runs the reconciler with --lb-class and Services of that class
+	gLBClass = ""
+	if id%5 == 4 {
+		gLBClass = "verif.example/lb"
+		out.Stat("lbclass_histories", 1)
+	}
 	w.newController()
 
 	var events []string
